@@ -12,7 +12,18 @@
      C 2 rd wr        iosizer.SizeReadWriter (rd/wr = 0: nil reader/writer)
      C 3 kind rd fn   iocloser.ReadCloser (kind 0) / WriteCloser (kind 1); rd=0: nil stream, fn=0: nil close func
      C 4              ioproxy.ProxyStreams, one complete run per event
-   int64 values travel as their two's complement uint64. *)
+   int64 values travel as their two's complement uint64.  Errors: 0 nil, 1 io.EOF, 2 other.
+   Events and observations:
+     ioseek    E 1 offset whence        O pos err [srpos]          (pos is reported as 0 when err <> 0: the
+                                                                     number returned with an error is not part of the property)
+               E 2 plen n err           O n' err' plen_seen off_seen [srpos]     (n, err: what the wrapped ReadAt returns)
+     iosizer   E 1|2 plen n err         O n' err' called plen_seen total         (1 Read, 2 Write)
+               E 3                      O total
+     iocloser  E 1 plen n err           O n' err' called plen_seen ran           (Read resp. Write)
+               E 2 ce                   O err' ran                               (Close; ce: what the close func returns)
+     ioproxy   E 1 cbnil sideA sideB    O deliveredA hashA deliveredB hashB closed1 closed2 callbacks   (closed: 1 iff Close was called at least once)
+               side = term wkind wk nchunks size_1 .. size_nchunks   (term 0 EOF, 1 error, 2 block until Close;
+               wkind 0 accept all, 1 error after wk bytes, 2 short write after wk bytes); direction A is s1 -> s2. *)
 From Util Require Import Common.Base IO.Model.
 Open Scope Z_scope.
 
@@ -27,12 +38,18 @@ Definition nz (n : N) : bool := negb (N.eqb n 0).
 (* ---------- proxy scripts ---------- *)
 Record side_script := { ss_term : rterm; ss_ws : wscript; ss_sizes : list nat }.
 
-(* byte j of the data that side [sd] (1 or 2) offers to its reader *)
-Definition datab (sd : N) (j : nat) : N := ((N.of_nat j * 7 + sd * 13 + 1) mod 251)%N.
-Fixpoint mk_chunks (sd : N) (pos : nat) (sizes : list nat) : list (list N) :=
+(* byte j of the data that side [sd] (1 or 2) offers to its reader; positions are counted in N
+   (binary), so that building the data is linear in its length *)
+Definition datab (sd : N) (j : N) : N := ((j * 7 + sd * 13 + 1) mod 251)%N.
+Fixpoint nseq (start : N) (len : nat) : list N :=
+  match len with
+  | O => []
+  | S len' => start :: nseq (N.succ start) len'
+  end.
+Fixpoint mk_chunks (sd : N) (pos : N) (sizes : list nat) : list (list N) :=
   match sizes with
   | [] => []
-  | k :: r => map (datab sd) (seq pos k) :: mk_chunks sd (pos + k) r
+  | k :: r => map (datab sd) (nseq pos k) :: mk_chunks sd (pos + N.of_nat k)%N r
   end.
 Definition side_of (sd : N) (ss : side_script) : side :=
   {| sd_chunks := mk_chunks sd 0 (ss_sizes ss); sd_term := ss_term ss; sd_ws := ss_ws ss |}.
@@ -115,8 +132,10 @@ Definition init (cfg : list N) : state :=
 
 Definition sr_field (sr : bool) (pos : Z) : list N := if sr then [of_i64 pos] else [].
 
-Definition enc_dir (d : list N * list nat) : list N :=
-  N.of_nat (length (snd d)) :: map N.of_nat (snd d) ++ [N.of_nat (length (fst d)); hash (fst d)].
+(* one direction of a proxy run: number of bytes the destination accepted and their hash.
+   (The sizes of the individual Write calls are an internal detail of the copy loop: not
+   part of the property and not observed.) *)
+Definition enc_dir (d : list N * list nat) : list N := [N.of_nat (length (fst d)); hash (fst d)].
 
 (* the oracle's well-formedness (the recorded domain of ioseek): the wrapped ReaderAt serves
    exactly [size] bytes, so a call ReadAt(p, off) returns 0 <= n <= len p with off + n <= size *)
@@ -160,7 +179,7 @@ Definition step (st : state) (e : list N) : option (state * list N) :=
     | Some (IEProxy cbnil a b) =>
       let r := proxy (side_of 1 a) (side_of 2 b) cbnil in
       Some (StProxy, enc_dir (po_a r) ++ enc_dir (po_b r) ++
-                     [N.of_nat (po_close1 r); N.of_nat (po_close2 r); N.of_nat (po_cb r)])
+                     [b2N (Nat.ltb 0 (po_close1 r)); b2N (Nat.ltb 0 (po_close2 r)); N.of_nat (po_cb r)])
     | _ => None
     end
   | StBad => None
@@ -266,8 +285,9 @@ Definition mon_closer (open fn : bool) (ran : N) (ev : io_ev) (o : list N) : mst
     let ran2 := if fn then (ran + 1)%N else ran in
     match o with
     | [er'; ran'] =>
-      (* clause 6: the close function runs on the first Close only, and its error is returned *)
-      (MCloser false false ran2, fails 6 (N.eqb er' (if fn then enc_err ce else 0%N) && N.eqb ran' ran2))
+      (* clause 6: the close function runs on the first Close only (the error returned by
+         Close is not part of the property; it is compared with the model only) *)
+      (MCloser false false ran2, fails 6 (N.eqb ran' ran2))
     | _ => (MCloser false false ran2, [(20%nat, 6%nat)])
     end
   | _ => (MCloser open fn ran, [])
@@ -282,33 +302,26 @@ Definition self_terminates (src dst : side_script) : bool :=
   match ss_term src with TBlock => false | _ => true end ||
   match ss_ws dst with WAll => false | WErrAfter k | WShortAfter k => Nat.ltb k (total_of src) end.
 
-Definition dec_dir (o : list N) : option (list N * N * N * list N) :=
+Definition dec_dir (o : list N) : option (N * N * list N) :=
   match o with
-  | nw :: r =>
-    let k := N.to_nat nw in
-    match skipn k r with
-    | d :: h :: rest => if Nat.leb k (length r) then Some (firstn k r, d, h, rest) else None
-    | _ => None
-    end
-  | [] => None
+  | d :: h :: rest => Some (d, h, rest)
+  | _ => None
   end.
 
 (* clause 8: in each direction the destination received, in order, exactly the first
-   budget bytes of the source (all of them when the destination accepts everything), in
-   writes of at most 8192 bytes *)
-Definition ok_dir (sd : N) (src dst : side_script) (sizes : list N) (delivered h : N) : bool :=
+   budget bytes of the source (all of them when the destination accepts everything) *)
+Definition ok_dir (sd : N) (src dst : side_script) (delivered h : N) : bool :=
   let b := budget_of (ss_ws dst) (total_of src) in
-  forallb (fun s => N.leb s 8192) sizes && N.eqb delivered (N.of_nat b) &&
-  N.eqb h (hash (map (datab sd) (seq 0 b))).
+  N.eqb delivered (N.of_nat b) && N.eqb h (hash (map (datab sd) (nseq 0 b))).
 
 Definition mon_proxy (ev : io_ev) (o : list N) : list (nat * nat) :=
   match ev with
   | IEProxy cbnil a b =>
     match dec_dir o with
-    | Some (sa, da, ha, rest) =>
+    | Some (da, ha, rest) =>
       match dec_dir rest with
-      | Some (sb, db, hb, [c1; c2; cb]) =>
-        fails 8 (ok_dir 1 a b sa da ha && ok_dir 2 b a sb db hb) ++
+      | Some (db, hb, [c1; c2; cb]) =>
+        fails 8 (ok_dir 1 a b da ha && ok_dir 2 b a db hb) ++
         (* clause 9: both sides closed and the callback called twice (when some pump can
            return at all; two sides that both block forever keep the proxy running) *)
         fails 9 (if self_terminates a b || self_terminates b a
